@@ -121,6 +121,15 @@ def rules(P, R, prefix="C05"):
             ptt = env.ctx(par).term(pt) if pt is not None else None
             R.judge(ptt == "self.qc.hash", prefix + ".K4", key(par, "Block::parent() is qc.hash" + tag), par.sp, str(ptt),
                     "Block::parent returns %s, not the hash certified by the block's QC" % ptt)
+            # every block the lookup can hand out is genesis (under the guard below) or the value decoded from THAT read
+            outs = [n for n in gp.nodes() if n["k"] == "ctor" and n["path"].endswith("::Some") and n.get("args")
+                    and "messages::Block" in (n["args"][0].get("ty") or n.get("ty") or "")]
+            R.floor(prefix + ".K4", len(outs), 2, "Some(block) results of the parent lookup" + tag)
+            for i, n in enumerate(outs):
+                vt = ctx.term(n["args"][0])
+                okv = vt == BLOCK + "::genesis()" or (vt.startswith("bincode::deserialize(self.store.read(«Block».parent().to_vec())"))
+                R.judge(okv, prefix + ".K4", key(gp, "parent handed out is genesis or the block stored under block.parent()" + tag, i), n["sp"], vt[:120],
+                        "the parent lookup can return `%s`: a block that is not the one certified by block.qc (identified by qc.hash)" % vt[:200])
             # genesis shortcut only when the QC is the genesis QC
             for n in gp.nodes():
                 if n["k"] == "call" and n["fn"] == BLOCK + "::genesis":
@@ -173,12 +182,16 @@ def rules(P, R, prefix="C05"):
                 ok = gpb is not None
                 callers = prog.calls_to(gpb.path) if gpb else []
                 bad = []
+                pbf_ = loopback[0] if loopback is not None else None
+                allowed = set(x.path for x in (pbf_, ga, gp_) if x is not None) | set(f_.path for f_ in sfns)
                 for (cf2, cn2) in callers:
-                    if cf2.self_ty not in (CORE, SYNC):
+                    if cf2.self_ty not in (CORE, SYNC) or cf2.path not in allowed:
                         bad.append(cf2.path)
                 if bad:
                     ok = False
-                    why = "get_parent_block is called from %s" % bad
+                    why = ("the parent lookup (which parks blocks with a missing parent for the loop-back) is called from %s: only process_block's "
+                           "ancestor resolution and the commit walk may park blocks, otherwise a block re-enters process_block without having "
+                           "passed the handler's checks" % bad)
                 else:
                     why = "parked blocks are arguments of get_parent_block, called only from Core/Synchronizer on processed or stored blocks"
             else:
@@ -209,4 +222,6 @@ def check(P, R, tier):
     # "shown a VALID QC": the certificate checks themselves (C04.S2: distinct members, stake >= quorum, signatures, genesis
     # shortcut only for the exact genesis QC) are part of what makes b1 a certified child
     from ..common import fold
-    fold(R, P, "c04", ("C04.S2",), "C05.K6", 20)
+    fold(R, P, "c04", ("C04.S1", "C04.S2"), "C05.K6", 30)
+    # ... and a QC the node assembles itself (it is never re-verified locally) must be a real one: C19.G1/G2/G4
+    fold(R, P, "c19", ("C19.G1", "C19.G2", "C19.G4"), "C05.K6", 8)
